@@ -313,6 +313,39 @@ def big_history(rng, nsteps=2, observe=None, deletes=True):
     return steps
 
 
+
+def during_scenarios(prop, rng, n):
+    """The source changing under the backup: files cut shorter (to nothing, too) or removed between the
+    listing of their directory and their turn to be read. What the version should restore to is not
+    defined then (mode "mutating"), but what is written must be well-formed: ordered, addresses
+    inside their blocks, lengths adding up."""
+    out = []
+    for i in range(n):
+        if i % 3 == 2:
+            # nested: victims in a sub-directory and beside it, names that sort around one another
+            names = ["a", "a.b", "d/x", "d/y", "d.x", "e"][:rng.randrange(4, 7)]
+        else:
+            names = ["a", "b", "c", "d", "e"][:rng.randrange(3, 6)]
+        t = [node("/", "Dir")] + ([node("/d", "Dir")] if any(nm.startswith("d/") for nm in names) else [])
+        t += [node("/" + nm, "File", bytes([j + 1]) * rng.randrange(3, 7), mt=(1600005000 + j, 0)) for j, nm in enumerate(names)]
+        o = rng.choice([{"H": 1000, "M": 1000, "S": 1000}, {"H": 2, "M": 8, "S": 7}, {"H": 1000, "M": 4, "S": 2}, {"H": 3, "M": 1000, "S": 0},
+                        {"H": 1000, "M": 12, "S": 7}])
+        victims = rng.sample(names[1:], rng.randrange(1, min(3, len(names))))
+        during = [{"after": "/" + names[0], "path": "/" + v, "len": rng.choice([0, 0, 1, 2, -1])} for v in victims]
+        if i % 2 == 0:
+            # a file found empty at its turn, among small files that are being combined into one block
+            o = rng.choice([{"H": 1000, "M": 1000, "S": 1000}, {"H": 3, "M": 40, "S": 20}, {"H": 1000, "M": 12, "S": 7}])
+            during[0]["len"] = 0
+        steps = [{"op": "tree", "tree": t}]
+        if i % 4 == 1:
+            # the victims are known to an earlier version (the cut then meets the unchanged-file test)
+            steps.append(bk(o))
+        nb = len(steps) - 1
+        steps += [bk(o, mutate_during=during), {"op": "list", "band": nb}, bk(o), {"op": "list", "band": nb + 1}]
+        out.append({"id": sid(prop, "shrink", i), "props": [prop], "mode": "mutating", "tags": ["source-changes-during-backup"], "steps": steps})
+    return out
+
+
 @check("C02", "model_checking", "TLA+ spec + TLC (bounded histories) + trace validation of random operation histories on the real code")
 def gen_c02(tier, seed):
     rng = random.Random(seed * 1000 + 2)
@@ -396,16 +429,7 @@ def gen_c13(tier, seed):
         if i % 2:
             steps += prefix_history(rng, nsteps=1, deletes=False)[2:]
         scens.append({"id": sid("C13", "pfx", i), "props": ["C13"], "mode": "clean", "tags": ["prefix-family"], "steps": steps})
-    # the source changing under the backup: a file cut shorter (or removed) between the listing of its
-    # directory and its turn to be read
-    for i in range(8 if tier == "quick" else 80):
-        names = ["a", "b", "c", "d", "e"][:rng.randrange(3, 6)]
-        t = [node("/", "Dir")] + [node("/" + nm, "File", bytes([j + 1]) * rng.randrange(3, 7), mt=(1600005000 + j, 0)) for j, nm in enumerate(names)]
-        o = rng.choice([{"H": 1000, "M": 1000, "S": 1000}, {"H": 2, "M": 8, "S": 7}, {"H": 1000, "M": 4, "S": 2}, {"H": 3, "M": 1000, "S": 0}])
-        victims = rng.sample(names[1:], rng.randrange(1, min(3, len(names))))
-        during = [{"after": "/" + names[0], "path": "/" + v, "len": rng.choice([0, 1, 2, -1])} for v in victims]
-        scens.append({"id": sid("C13", "shrink", i), "props": ["C13"], "mode": "mutating", "tags": ["source-changes-during-backup"],
-                      "steps": [{"op": "tree", "tree": t}, bk(o, mutate_during=during), {"op": "list", "band": 0}]})
+    scens += during_scenarios("C13", rng, 16 if tier == "quick" else 160)
     # directed: several files with the same content, each stored as a block of its own, and every
     # write of the run made to fail in turn: what a failed block write leaves in memory must not make a
     # later identical block look stored
@@ -515,6 +539,21 @@ def gen_c14(tier, seed):
         steps = [{"op": "tree", "tree": t0}, bk(o0), {"op": "tree", "tree": t1},
                  {"op": "sweep", "base": bk(o), "mode": "crash", "sample": 0, "seed": i, "then": [bk(o), {"op": "restore", "band": -1}]}]
         scens.append({"id": sid("C14", "resord", i), "props": ["C14"], "mode": "clean", "tags": ["resume", "path-order"], "steps": steps})
+    # two interrupted runs in a row: the first got far through a tree whose files had all changed, then
+    # files were added early in the tree and the second run is killed at every point in turn (so it has
+    # as many or more hunks than the first but reaches less far); the run after them must take every
+    # file the first interrupted run had stored from that run's entries
+    for i in range(4 if tier == "quick" else 40):
+        k = rng.randrange(8, 13)
+        H = rng.choice([2, 3, 4])
+        o = {"H": H, "M": 1000, "S": rng.choice([0, 0, 1000])}
+        t0 = [node("/", "Dir")] + [node("/f%02d" % j, "File", bytes([j + 1, 1]), mt=(1600007000 + j, 0)) for j in range(k)]
+        t1 = [node("/", "Dir")] + [node("/f%02d" % j, "File", bytes([j + 1, 2, 2]), mt=(1600007500 + j, 0)) for j in range(k)]
+        t2 = [dict(n) for n in t1] + [node("/a%d" % j, "File", bytes([60 + j]) * 2, mt=(1600007900 + j, 0)) for j in range(rng.randrange(1, 4))]
+        steps = [{"op": "tree", "tree": t0}, bk(dict(o, H=rng.choice([H, 5]))), {"op": "tree", "tree": t1}, bk(o, crash_from_end=rng.randrange(1, 7)),
+                 {"op": "tree", "tree": t2},
+                 {"op": "sweep", "base": bk(o), "mode": "crash", "sample": 0, "seed": i, "then": [bk(o), {"op": "restore", "band": -1}]}]
+        scens.append({"id": sid("C14", "resume2", i), "props": ["C14"], "mode": "clean", "tags": ["resume", "two-interrupted"], "steps": steps})
     return scens
 
 
@@ -712,6 +751,13 @@ def gen_c04(tier, seed):
                       "steps": [{"op": "tree", "tree": t1},
                                 {"op": "sweep", "base": bk(o), "mode": "fail", "verbs": ["write", "create_dir"], "sample": 0 if tier != "quick" else 32,
                                  "seed": seed * 100 + i, "then": after}]})
+    # new blocks that belong in d/xyz directories which already hold blocks of the earlier version
+    for i in range(4 if tier == "quick" else 60):
+        t0, t1, o = cvlib.mates_pair(rng)
+        scens.append({"id": sid("C04", "mates", i), "props": ["C04"], "mode": "fault", "tags": ["single-fault", "subdir-mates"],
+                      "steps": [{"op": "tree", "tree": t0}, bk(o), {"op": "tree", "tree": t1},
+                                {"op": "sweep", "base": bk(o), "mode": "fail", "verbs": ["write", "create_dir"], "sample": 0,
+                                 "seed": seed * 100 + i, "then": after}]})
     m = 60 if tier == "quick" else 1000
     for i in range(m):
         o = rng.choice(C04_OPTS)
@@ -773,7 +819,13 @@ def gen_c05(tier, seed):
     n = 48 if tier == "quick" else 500
     scens = []
     for i in range(n):
-        if i % 2 == 0:
+        if i % 6 == 4:
+            # versions whose unshared blocks sit in the same d/xyz directories as blocks of the other
+            t0, t1, o = cvlib.mates_pair(rng)
+            steps = [{"op": "tree", "tree": t0}, bk(o), {"op": "tree", "tree": t1}, bk(o)]
+            sel = rng.choice([[0], [1], []])
+            fam = "subdir-mates"
+        elif i % 2 == 0:
             steps, sel = shared_block_history(rng)
             fam = "shared"
         else:
@@ -868,6 +920,9 @@ def conc_archive(rng):
     c_old = bytes([rng.choice([1, 2, 3])]) * rng.randrange(2, 5)      # only in version 0
     c_keep = bytes([rng.choice([4, 5])]) * rng.randrange(2, 5)        # in every version
     c_new = bytes([rng.choice([6, 7])]) * rng.randrange(2, 5)         # only in the new source
+    if rng.random() < 0.3:
+        # all three stored in the same d/xyz directory (where every file is a block of its own)
+        c_keep, c_new = cvlib.subdir_mate(rng, c_old), cvlib.subdir_mate(rng, c_old)
     t0 = [node("/", "Dir"), node("/a", "File", c_keep), node("/b", "File", c_old)]
     steps = [{"op": "tree", "tree": t0}, bk(o)]
     nb = 1
@@ -947,6 +1002,20 @@ def gen_c07(tier, seed):
         scens.append({"id": sid("C07", "bigid", i), "props": ["C07"], "mode": "clean", "no_create": True, "tags": ["big-ids"],
                       "steps": [base["steps"][0], {"op": "tree", "tree": t}, bk(rng.choice(OPTS_POOL[:5])), {"op": "tree", "tree": mut(rng, t, maxlen=4)},
                                 bk(rng.choice(OPTS_POOL[:5])), {"op": "versions"}, {"op": "restore", "band": -1}]})
+    # a backup that fails part-way removes and overwrites nothing either: every write / create_dir of a
+    # second backup made to fail in turn (and every kill point), over an archive whose d/xyz
+    # directories the new blocks share with old ones
+    for i in range(8 if tier == "quick" else 80):
+        t0, t1, o = cvlib.mates_pair(rng)
+        if i % 4 == 3:
+            t0 = random_tree(rng, nmax=4, pre_epoch=False, maxlen=6)
+            t1, o = mut(rng, t0, maxlen=6, nmut=3), rng.choice(OPTS_POOL[:6])
+        sw = {"op": "sweep", "base": bk(o), "mode": "fail" if i % 2 == 0 else "crash", "sample": 0 if tier != "quick" else 30,
+              "seed": seed * 100 + i, "then": [{"op": "restore_all"}]}
+        if i % 2 == 0:
+            sw["verbs"] = ["write", "create_dir"]
+        scens.append({"id": sid("C07", "failing", i), "props": ["C07"], "mode": "fault", "tags": ["failing-backup", "subdir-mates"],
+                      "steps": [{"op": "tree", "tree": t0}, bk(o), {"op": "tree", "tree": t1}, sw]})
     # direct contract probe of the transport
     scens.append({"id": sid("C07", "probe", 0), "props": ["C07"], "mode": "probe", "tags": ["contract-probe"], "steps": [
         {"op": "probe_write", "path": "probe_x", "content": [1, 2, 3], "mode": "new"},
@@ -1208,6 +1277,8 @@ def gen_c11(tier, seed):
         scens.append({"id": sid("C11", "routes", i), "props": ["C11"], "mode": "clean", "tags": ["walk", "index-routes"],
                       "steps": [{"op": "tree", "tree": t}, {"op": "walk"}, bk(o), {"op": "list", "band": 0},
                                 {"op": "tree", "tree": t2}, bk(o), {"op": "list", "band": 1}]})
+    # the order also holds for what is written while the source changes under the backup
+    scens += during_scenarios("C11", rng, 16 if tier == "quick" else 160)
     n = 80 if tier == "quick" else 1000
     for i in range(n):
         t = random_tree(rng, nmax=rng.choice([5, 9, 14, 20]), depth=4, names=names, pre_epoch=False, maxlen=4)
@@ -1407,6 +1478,15 @@ def gen_c16(tier, seed):
             ds = [path_str(nd["p"]) for nd in t if nd["p"] and nd["k"] == "Dir"]
             sel = {"subtree": rng.choice(ds)} if ds and rng.random() < 0.6 else {"excl": [rng.choice(["a", "l", "/d", "*", "/"])]}
             steps.append(dict({"op": "restore", "band": 0, "dest": "nonempty", "overwrite": False}, **sel))
+        # what a non-empty destination holds: a file, a symlink (to a sentinel outside, or dangling), an empty
+        # directory, an empty file, a fifo -- under a name of its own, a name the version also has, a hidden
+        # name, or a name that is not UTF-8
+        tops = [nd["p"][0] for nd in t if len(nd["p"]) == 1 and nd["k"] == "File"]
+        for st in steps:
+            if st.get("dest") == "nonempty":
+                st["holds"] = rng.choice(["file", "file", "symlink_out", "symlink_out", "symlink_dir_out", "dangling", "emptydir", "emptyfile", "fifo"])
+                nm = rng.choice([list(b"preexisting"), list(b".hidden"), list(b"caf\xe9")] + ([rng.choice(tops)] * 2 if tops else []))
+                st["holds_name"] = [int(b) for b in nm]
         scens.append({"id": sid("C16", "s", i), "props": ["C16"], "mode": "clean", "tags": ["sandbox"], "steps": steps})
     return scens
 
@@ -1470,6 +1550,19 @@ def gen_c17(tier, seed):
         steps = [{"op": "new_archive", "rt": f1}] + hist + [{"op": "archive_digest"}, {"op": "new_archive", "rt": f2}] + hist + [{"op": "archive_digest"}]
         steps += [{"op": "new_archive", "rt": f1}] + hist + [{"op": "archive_digest"}]
         scens.append({"id": sid("C17", "pfx", i), "props": ["C17"], "mode": "clean", "tags": ["replay", "prefix-family", f1, f2], "steps": steps})
+    # slow storage: in one of the two replays one storage verb of a backup takes half a minute (a
+    # minute, two minutes in the thorough tier) longer; what is written may not depend on how long
+    # the run takes
+    stalls = [31000] if tier == "quick" else [31000, 31000, 62000, 125000]
+    for i, ms in enumerate(stalls):
+        names = ["a", "b", "c", "m", "n", "z"]
+        t = [node("/", "Dir")] + [node("/" + nm, "File", bytes([j + 1]) * rng.randrange(2, 6), mt=(1600008000 + j, 0)) for j, nm in enumerate(names)]
+        t.insert(4, node("/big", "File", bytes([9]) * 2000, mt=(1600008100, 0)))
+        o = {"H": 1000, "M": 1000, "S": 100}
+        slow = bk(o, stall_block=ms)
+        steps = [{"op": "new_archive", "rt": "ct"}, {"op": "tree", "tree": t}, bk(o), {"op": "archive_digest"},
+                 {"op": "new_archive", "rt": "ct"}, {"op": "tree", "tree": t}, slow, {"op": "archive_digest"}]
+        scens.insert(0, {"id": sid("C17", "slow", i), "props": ["C17"], "mode": "clean", "tags": ["replay", "slow-storage"], "steps": steps})
     return scens
 
 
@@ -1556,6 +1649,9 @@ def c08_scenario(sid_, lay, paths, ids, tags):
         b = ids[slot]
         hunks = [{"n": bs["off"] + j, "es": [c08_entry(paths[i - 1], b, bs["off"] + j) for i in h]} for j, h in enumerate(bs["hunks"])]
         bands.append({"id": b, "head": bs["st"] not in ("nohead", "noheadtail"), "tail": bs["st"] in ("complete", "noheadtail"), "hunks": hunks})
+        if bs.get("legacy") and bands[-1]["tail"]:
+            # a tail as releases before 0.6.4 wrote it: no hunk count
+            bands[-1]["legacy_tail"] = True
     steps = [{"op": "layout", "bands": bands, "blocks": []}]
     for bd in bands:
         if not bd["head"]:
@@ -1595,7 +1691,10 @@ def gen_c08(tier, seed):
         interesting = [c for c in cases if sum(1 for b in c if b["st"] == "incomplete" and b["hunks"]) >= 1]
         cases = rng.sample(interesting, min(2500, len(interesting))) + rng.sample(cases, min(500, len(cases)))
     for i, lay in enumerate(cases):
-        scens.append(c08_scenario(sid("C08", "l3", i), lay, C08_PATHS["Paths3"], [0, 1, 3], ["tlc-arrangement"]))
+        if i % 3 == 2:
+            # the same arrangement with old-style tails (no hunk count): complete all the same
+            lay = [dict(b, legacy=True) for b in lay]
+        scens.append(c08_scenario(sid("C08", "l3", i), lay, C08_PATHS["Paths3"], [0, 1, 3], ["tlc-arrangement"] + (["legacy-tail"] if i % 3 == 2 else [])))
     r2 = cvlib.run_tlc_model("MC_Stitch.tla", "MC_Stitch_off.cfg", timeout=900)
     mcs.append(("MC_Stitch.tla", "MC_Stitch_off.cfg", r2))
     if r2["ok"]:
@@ -1629,7 +1728,7 @@ def gen_c08(tier, seed):
                 k = rng.randrange(1, 4)
                 hunks.append(sel[:k])
                 sel = sel[k:]
-            lay.append({"st": st, "hunks": hunks if st != "nohead" else [], "off": rng.choice([0, 0, 0, 1])})
+            lay.append({"st": st, "hunks": hunks if st != "nohead" else [], "off": rng.choice([0, 0, 0, 1]), "legacy": i % 3 == 0 and rng.random() < 0.7})
             if st == "noheadtail":
                 lay[-1]["hunks"] = hunks[:rng.randrange(0, 2)]
         s = c08_scenario(sid("C08", "rnd", i), lay, universe, ids, ["random-arrangement"])
@@ -1856,7 +1955,7 @@ def run_check(prop, tier, seed, t0, keep=False):
     else:
         scens = gen_out
     own = len(scens)
-    scens = [cvlib.fix_scenario(x) for x in scens + common_pool(prop, tier, seed)]
+    scens = [cvlib.age_scenario(cvlib.fix_scenario(x)) for x in scens + common_pool(prop, tier, seed)]
     by_id = {s["id"]: s for s in scens}
     mc = list(mc)
     for entry in MODELS.get(prop, {}).get(tier, []):
